@@ -49,7 +49,14 @@ def drive(rec):
                   "impl_call": "Crystal(...%d %r).unit_cell_connectivity/unit_cell_molecules/symmetry_unique_molecules" % (
                       rec["number"], rec["choice"]),
                   "nontrivial": True}}
-    cr = xtal.build_crystal(rec)
+    try:
+        cr = xtal.build_crystal(rec)
+    except Exception as e:
+        if not rec.get("via_switch"):
+            raise
+        t["ops"] = list(rec.get("table_ops", []))
+        t["exc_conn"] = "switch:" + type(e).__name__
+        return t
     t["ops"] = [int(s.integer_code) for s in cr.space_group.symmetry_operations]
     off = False
     try:
